@@ -71,6 +71,17 @@ def parseState (fs : List String) : Option Topo :=
     some { inputs := nat! i, outputs := nat! o, procs, iin, iout, links }
   | _ => none
 
+def parseCli (fs : List String) : Option CliEdit :=
+  let ids (s : String) : List Nat := (commaList s).map nat!
+  match fs with
+  | ["addin", n] => some (.addInputs (nat! n))
+  | ["addout", n] => some (.addOutputs (nat! n))
+  | ["delin", l] => some (.delInputs (ids l))
+  | ["delout", l] => some (.delOutputs (ids l))
+  | ["addbond", a, b] => some (.addBond (parseName a) (parseName b))
+  | ["delbonds", l] => some (.delBonds (ids l))
+  | _ => none
+
 structure St where
   model : Topo := {}
   impl : Topo := {}          -- last state dumped by the implementation
@@ -90,8 +101,18 @@ def step (s : St) (line : String) : St × List String :=
       let m' := apply s.model e
       ({ s with model := m', edit := some e, modelPrev := s.model }, [line, dumpTopo m' err])
     | none => ({ s with edit := none }, [line, "bad-edit"])
+  | "C" :: rest =>
+    -- one invocation of the command line tool = a sequence of API edits
+    match parseCli rest with
+    | some c =>
+      let m' := applyCli s.model c
+      ({ s with model := m', edit := none, modelPrev := s.model }, [line, dumpTopo m' false])
+    | none => ({ s with edit := none }, [line, "bad-edit"])
   | "S" :: _ =>
     match parseState fs, s.edit with
+    | some g', none =>
+      -- after a CLI invocation: well-formedness of what the tool wrote back
+      ({ s with impl := g' }, [s!"P wf={b2s (wfB g')} spec=1 mwf={b2s (wfB s.model)} mspec=1"])
     | some g', some e =>
       let wf := wfB g'
       let spec := sameSet (bonds g') (specBonds s.impl e)
